@@ -5,7 +5,7 @@ from .c05 import corpus_requests
 RULE = ("`vcdcut <opts> <vars> <realmap> <body> <k> <lb>`: the complete generated file and the file cut after k body bytes are both loaded "
         "(real code, each load under catch_unwind); the reply is `ok` when the truncated load is a prefix of the complete one in the sense of "
         "the property, `err`, or panic; at line boundaries of line-disciplined files the reply is `ok:<loaded waveform>` and must EQUAL the waveform the lines "
-        "present denote (token interpreter + Spec.run of the prefix; not demanded where a C01 finding class F5a / F24 applies). The Lean model computes the same from its own "
+        "present denote (token interpreter + Spec.run of the prefix; not demanded where the C01 finding class F5a applies). The Lean model computes the same from its own "
         "loads. EVERY cut offset of every generated body is tried (exhaustive per body), single-threaded path, reader and multi-threaded. "
         "non-trivial = the truncated load succeeds with at least one time step; distinct = distinct (request, reply)")
 
